@@ -394,8 +394,12 @@ class DiscountCurve:
             t = times[i]
             values[i] = values[i] * np.exp(-bump_size * t)
 
+        # the constructor takes the pillar dates (not times) and adds the anchor
+        # knot itself, so drop the anchor's df unless the first pillar is the
+        # valuation date
+        start = len(values) - len(self._df_dates)
         disc_curve = DiscountCurve(
-            self.value_dt, times, values, self._interp_type
+            self.value_dt, self._df_dates, values[start:], self._interp_type
         )
 
         return disc_curve
